@@ -299,6 +299,9 @@ class Termination:
         if isinstance(n.test, ast.Constant) and n.test.value:
             if self._progress(n.body, set(), n.test):
                 return True, 'while-True loop leaves on every path of its body'
+            why = chain_walk_forever(self.prog, self.cg, fn, n)
+            if why:
+                return True, why[2]
             return False, 'while-True loop without an exit on every path'
         if self._progress(n.body, tn, n.test):
             return True, 'every path through the body shrinks a variable of the loop test or leaves the loop'
@@ -309,64 +312,8 @@ class Termination:
                        f'the test nor leaves the loop (possible hang)')
 
     def _chain_walk(self, fn: FuncInfo, n: ast.While) -> Optional[str]:
-        """`while x is not None:` (or `while x:`) ... `x = x.<link>` on every path through the body, x an instance of a frozen
-        dataclass of the package: a walk along a chain of links that were fixed when each object was constructed - an object
-        can only link to objects that existed before it, so the chain is finite and ends in None."""
-        t = n.test
-        if isinstance(t, ast.Compare) and len(t.ops) == 1 and isinstance(t.ops[0], (ast.IsNot, ast.NotEq)) and \
-                isinstance(t.left, ast.Name) and isinstance(t.comparators[0], ast.Constant) and t.comparators[0].value is None:
-            x = t.left.id
-        elif isinstance(t, ast.Name):
-            x = t.id
-        else:
-            return None
-        from .model import strip_opt
-        ty = strip_opt(self.cg.env(fn).type_of(ast.Name(id=x, ctx=ast.Load())))
-        if ty[0] == 'union':
-            members = {strip_opt(m) for m in ty[1] if strip_opt(m)[0] not in ('none', 'any')}
-            ty = next(iter(members)) if len(members) == 1 else ty
-        cls = self.prog.classes.get(ty[1]) if ty[0] == 'cls' else None
-        if cls is None and fn.cls is not None:
-            # `x = self` before the loop and `x = x.<link>` in it: x is an instance of the enclosing class
-            sites = self.cg.env(fn)._assign_sites.get(x, [])
-            if sites and all(s_[0] == 'expr' and ((isinstance(s_[1], ast.Name) and s_[1].id == 'self') or
-                                                 (isinstance(s_[1], ast.Attribute) and isinstance(s_[1].value, ast.Name)
-                                                  and s_[1].value.id == x)) for s_ in sites):
-                cls = fn.cls
-        if cls is None or not cls.is_dataclass:
-            return None
-        link_fields = {s_.value.attr for s_ in ast.walk(n) if isinstance(s_, ast.Assign) and isinstance(s_.value, ast.Attribute)}
-        if not cls.frozen:
-            # the links must not be re-bound after construction anywhere in the package
-            for f_ in self.prog.all_functions():
-                if f_.name in ('__init__', '__post_init__') and f_.cls is cls:
-                    continue
-                for y in iter_own_nodes(f_.node):
-                    if isinstance(y, ast.Attribute) and isinstance(y.ctx, ast.Store) and y.attr in link_fields:
-                        return None
-
-        def steps(stmts) -> bool:
-            """every path through stmts re-binds x to a link of itself (or leaves the loop)"""
-            for s in stmts:
-                if isinstance(s, (ast.Break, ast.Return, ast.Raise)):
-                    return True
-                if isinstance(s, ast.Assign) and len(s.targets) == 1 and isinstance(s.targets[0], ast.Name) and s.targets[0].id == x:
-                    v = s.value
-                    return isinstance(v, ast.Attribute) and isinstance(v.value, ast.Name) and v.value.id == x and \
-                        v.attr in self.prog.class_fields(cls)
-                if isinstance(s, ast.If) and s.orelse and steps(s.body) and steps(s.orelse):
-                    return True
-                if isinstance(s, ast.Continue):
-                    return False
-            return False
-        if not steps(n.body):
-            return None
-        others = [y for y in ast.walk(n) if isinstance(y, ast.Name) and y.id == x and isinstance(y.ctx, ast.Store)]
-        if len(others) != sum(1 for s in ast.walk(n) if isinstance(s, ast.Assign) and len(s.targets) == 1 and
-                              isinstance(s.targets[0], ast.Name) and s.targets[0].id == x):
-            return None
-        return (f'walk along the `{cls.name}` links, which are fixed at construction: every turn moves `{x}` one link on, '
-                f'the chain is finite and ends in None')
+        r = chain_walk_while(self.prog, self.cg, fn, n)
+        return r[1] if r else None
 
     def _iterator_stack(self, fn: FuncInfo, n: ast.While) -> Optional[str]:
         """Depth-first walk with an explicit stack of partly consumed iterators:
@@ -392,13 +339,14 @@ class Termination:
                 ast.unparse(peek.value.slice) == '-1' and len(peek.targets) == 1):
             return None
         tgt = peek.targets[0]
-        it_name = tgt.id if isinstance(tgt, ast.Name) else tgt.elts[0].id if isinstance(tgt, (ast.Tuple, ast.List)) and tgt.elts and \
-            isinstance(tgt.elts[0], ast.Name) else None
-        if it_name is None or not (isinstance(loop.iter, ast.Name) and loop.iter.id == it_name and isinstance(loop.target, ast.Name)):
+        names_ = [tgt.id] if isinstance(tgt, ast.Name) else [e_.id for e_ in tgt.elts if isinstance(e_, ast.Name)] \
+            if isinstance(tgt, (ast.Tuple, ast.List)) else []
+        it_name = loop.iter.id if isinstance(loop.iter, ast.Name) and loop.iter.id in names_ else None     # (any component of the level)
+        if it_name is None or not isinstance(loop.target, ast.Name):
             return None
         x = loop.target.id
         # else clause: pops, and nothing else touches S
-        pops = [st for st in loop.orelse if isinstance(st, ast.Expr) and isinstance(st.value, ast.Call) and
+        pops = [st for st in loop.orelse if isinstance(st, (ast.Expr, ast.Assign)) and isinstance(st.value, ast.Call) and
                 isinstance(st.value.func, ast.Attribute) and st.value.func.attr == 'pop' and not st.value.args and
                 isinstance(st.value.func.value, ast.Name) and st.value.func.value.id == S]
         if len(pops) != 1 or any(isinstance(y, ast.Name) and y.id == S for st in loop.orelse if st is not pops[0] for y in ast.walk(st)):
@@ -466,3 +414,125 @@ class Termination:
             if isinstance(s, ast.AugAssign) and same_expr(s.target, it):
                 return False, f'the loop body grows the collection it iterates: `{ast.unparse(s)[:60]}`'
         return True, 'the body does not grow the iterated collection'
+
+
+
+def chain_walk_forever(prog: Program, cg: CallGraph, fn: FuncInfo, n: ast.While):
+    """`while True:` ... `if <x has no further link>: return / break` ... `x = x.<link>`: a walk along links of instances of a
+    dataclass of the package that are fixed when each object is constructed (nothing in the package re-binds the field): an
+    object can only link to objects that existed before it, so the chain is finite, has no cycle and ends in an object whose
+    link is None - where the exit is taken.  -> (x, link field, reason) or None."""
+    if not (isinstance(n.test, ast.Constant) and n.test.value):
+        return None
+    steps = [s for s in n.body if isinstance(s, ast.Assign) and len(s.targets) == 1 and isinstance(s.targets[0], ast.Name) and
+             isinstance(s.value, ast.Attribute) and isinstance(s.value.value, ast.Name) and s.value.value.id == s.targets[0].id]
+    if len(steps) != 1 or n.body[-1] is not steps[0]:
+        return None
+    x, link = steps[0].targets[0].id, steps[0].value.attr
+    if any(isinstance(y, ast.Name) and y.id == x and isinstance(y.ctx, ast.Store) and y is not steps[0].targets[0] for y in ast.walk(n)):
+        return None
+    if any(isinstance(y, ast.Continue) for y in ast.walk(n)):
+        return None
+    from .model import strip_opt
+    env = cg.env(fn)
+    ty = strip_opt(env.type_of(ast.Name(id=x, ctx=ast.Load())))
+    cls = prog.classes.get(ty[1]) if ty[0] == 'cls' else None
+    if cls is None and fn.cls is not None:
+        sites = env._assign_sites.get(x, [])
+        if sites and all(s_[0] == 'expr' and ((isinstance(s_[1], ast.Name) and s_[1].id == 'self') or
+                                             (isinstance(s_[1], ast.Attribute) and isinstance(s_[1].value, ast.Name) and s_[1].value.id == x))
+                         for s_ in sites):
+            cls = fn.cls
+    if cls is None or not cls.is_dataclass or link not in prog.class_fields(cls):
+        return None
+    if not cls.frozen:
+        for f_ in prog.all_functions():
+            if f_.name in ('__init__', '__post_init__') and f_.cls is cls:
+                continue
+            for y in iter_own_nodes(f_.node):
+                if isinstance(y, ast.Attribute) and isinstance(y.ctx, ast.Store) and y.attr == link:
+                    return None
+
+    def no_link(c: ast.expr, depth: int = 0) -> bool:
+        """c holds exactly when x.<link> is None / falsy"""
+        if isinstance(c, ast.UnaryOp) and isinstance(c.op, ast.Not):
+            o = c.operand
+            return isinstance(o, ast.Attribute) and o.attr == link and isinstance(o.value, ast.Name) and o.value.id in (x, 'self')
+        if isinstance(c, ast.Compare) and len(c.ops) == 1 and isinstance(c.ops[0], (ast.Is, ast.Eq)) and \
+                isinstance(c.comparators[0], ast.Constant) and c.comparators[0].value is None:
+            o = c.left
+            return isinstance(o, ast.Attribute) and o.attr == link and isinstance(o.value, ast.Name) and o.value.id in (x, 'self')
+        if depth == 0 and isinstance(c, ast.Attribute) and isinstance(c.value, ast.Name) and c.value.id == x:
+            m = prog.lookup_method(cls, c.attr)
+            if m is not None and m.is_property:
+                body = [st for st in m.node.body if not (isinstance(st, ast.Expr) and isinstance(st.value, ast.Constant))]
+                return len(body) == 1 and isinstance(body[0], ast.Return) and body[0].value is not None and no_link(body[0].value, 1)
+        return False
+    exits = [s for s in n.body[:-1] if isinstance(s, ast.If) and not s.orelse and s.body and
+             isinstance(s.body[-1], (ast.Return, ast.Break)) and no_link(s.test)]
+    if not exits:
+        return None
+    return (x, link, f'walk along the `{cls.name}.{link}` links, which are fixed at construction: the chain is finite and without a cycle, every turn '
+                     f'moves `{x}` one link on and the loop is left at the object that has no `{link}`')
+
+
+def chain_walk_while(prog: Program, cg: CallGraph, fn: FuncInfo, n: ast.While):
+    """`while x is not None:` (or `while x:`) ... `x = x.<link>` on every path through the body, x an instance of a frozen
+    dataclass of the package: a walk along a chain of links that were fixed when each object was constructed - an object
+    can only link to objects that existed before it, so the chain is finite and ends in None."""
+    t = n.test
+    if isinstance(t, ast.Compare) and len(t.ops) == 1 and isinstance(t.ops[0], (ast.IsNot, ast.NotEq)) and \
+            isinstance(t.left, ast.Name) and isinstance(t.comparators[0], ast.Constant) and t.comparators[0].value is None:
+        x = t.left.id
+    elif isinstance(t, ast.Name):
+        x = t.id
+    else:
+        return None
+    from .model import strip_opt
+    ty = strip_opt(cg.env(fn).type_of(ast.Name(id=x, ctx=ast.Load())))
+    if ty[0] == 'union':
+        members = {strip_opt(m) for m in ty[1] if strip_opt(m)[0] not in ('none', 'any')}
+        ty = next(iter(members)) if len(members) == 1 else ty
+    cls = prog.classes.get(ty[1]) if ty[0] == 'cls' else None
+    if cls is None and fn.cls is not None:
+        # `x = self` before the loop and `x = x.<link>` in it: x is an instance of the enclosing class
+        sites = cg.env(fn)._assign_sites.get(x, [])
+        if sites and all(s_[0] == 'expr' and ((isinstance(s_[1], ast.Name) and s_[1].id == 'self') or
+                                             (isinstance(s_[1], ast.Attribute) and isinstance(s_[1].value, ast.Name)
+                                              and s_[1].value.id == x)) for s_ in sites):
+            cls = fn.cls
+    if cls is None or not cls.is_dataclass:
+        return None
+    link_fields = {s_.value.attr for s_ in ast.walk(n) if isinstance(s_, ast.Assign) and isinstance(s_.value, ast.Attribute)}
+    if not cls.frozen:
+        # the links must not be re-bound after construction anywhere in the package
+        for f_ in prog.all_functions():
+            if f_.name in ('__init__', '__post_init__') and f_.cls is cls:
+                continue
+            for y in iter_own_nodes(f_.node):
+                if isinstance(y, ast.Attribute) and isinstance(y.ctx, ast.Store) and y.attr in link_fields:
+                    return None
+
+    def steps(stmts) -> bool:
+        """every path through stmts re-binds x to a link of itself (or leaves the loop)"""
+        for s in stmts:
+            if isinstance(s, (ast.Break, ast.Return, ast.Raise)):
+                return True
+            if isinstance(s, ast.Assign) and len(s.targets) == 1 and isinstance(s.targets[0], ast.Name) and s.targets[0].id == x:
+                v = s.value
+                return isinstance(v, ast.Attribute) and isinstance(v.value, ast.Name) and v.value.id == x and \
+                    v.attr in prog.class_fields(cls)
+            if isinstance(s, ast.If) and s.orelse and steps(s.body) and steps(s.orelse):
+                return True
+            if isinstance(s, ast.Continue):
+                return False
+        return False
+    if not steps(n.body):
+        return None
+    others = [y for y in ast.walk(n) if isinstance(y, ast.Name) and y.id == x and isinstance(y.ctx, ast.Store)]
+    if len(others) != sum(1 for s in ast.walk(n) if isinstance(s, ast.Assign) and len(s.targets) == 1 and
+                          isinstance(s.targets[0], ast.Name) and s.targets[0].id == x):
+        return None
+    return (x, f'walk along the `{cls.name}` links, which are fixed at construction: every turn moves `{x}` one link on, '
+               f'the chain is finite and ends in None')
+
